@@ -59,3 +59,42 @@ def brief(case):
             'templates': [t['source'] for t in case['templates']],
             'kw': case['kw'], 'mapping': case['mapping'], 'clients': case['clients'],
             'globals': case['templates'][case['main']]['globals'], 'vars': case['templates'][case['main']]['vars']}
+
+
+def inx_slice(res, r, n, need=('sort=', 'size=', 'start=', 'end=', ' reverse'), faults=True):
+    """correspondence slice for dtml-in with sort / reverse / batch options (the model's `inx_`): random programs that contain
+    such a loop, run on the Lean interpreter and on the real classes (results, call traces, namespace snapshots), each
+    also with the k-th callable invocation raising.  Records mismatches in `res`; returns the number compared."""
+    cases = []
+    tries = 0
+    while len(cases) < n and tries < n * 40:
+        tries += 1
+        c = proggen.gen_case(r, 3, robust=r.random() < 0.5)
+        src = c['templates'][0]['source']
+        if '<dtml-in' in src and any(k in src for k in need):
+            cases.append(proggen.wrap_case(c) if r.random() < 0.5 else c)
+    runs = run_cases(res, cases)
+    if faults:
+        fc, fp = [], []
+        for (c, plan, impl, m) in runs:
+            for k in range(min(impl['calls'], 3)):
+                fc.append(c)
+                fp.append(((k,), r.choice(['ValueError', 'KeyError', 'E2', 'TypeError'])))
+        runs = runs + run_cases(res, fc, fp)
+    compared = 0
+    for (c, plan, impl, m) in runs:
+        res.evaluations += 1
+        if m is None:
+            continue
+        d = compare(impl, m)
+        if d == 'oom':
+            res.count('inx_outside_model')
+            continue
+        compared += 1
+        res.corr_checked += 1
+        res.count('inx_slice_compared')
+        if d:
+            res.corr_mismatch.append({'case': {'program': brief(c), 'faults': list(plan[0]), 'fault_cls': plan[1],
+                                               'slice': 'dtml-in with sort/reverse/batch options'},
+                                      'impl': impl['result'], 'model': m['result'], 'diff': d})
+    return compared
